@@ -220,7 +220,7 @@ impl Engine for VcConfig {
         vec!["C16", "C17"]
     }
     fn chunk(&self) -> usize {
-        256
+        8
     }
     fn relevant(&self, property: &str, case: &CfgCase) -> bool {
         matches!(case, CfgCase::RoundTrip { .. } | CfgCase::DocRoundTrip { .. }) == (property == "C17")
@@ -265,6 +265,12 @@ impl Engine for VcConfig {
             }
             for cli in 0..3u8 {
                 v.push(CfgCase::Cli { key, cli, inline: 0, doc: 0, cram: true });
+            }
+        }
+        // document-level keys: 2 = shell (two private copies of bash), 3 = total_timeout (1 = 1 s, 2 = 3 s) against a 2 s command
+        for key in 2..4u8 {
+            for w in words(3, 2) {
+                v.push(CfgCase::Cli { key, cli: w[0] as u8, inline: 0, doc: w[1] as u8, cram: false });
             }
         }
         // --- C17
@@ -323,7 +329,7 @@ impl Engine for VcConfig {
         Box::new(v.into_iter())
     }
     fn bound(&self, _tier: Tier) -> String {
-        "C16: every assignment of {unset,v1,v2} to the 4 layers for each of 9 keys (7 scalar keys + 2 environment variables) and jointly for every pair of keys (3^8 x 36); DocumentConfig: all 3^10 assignments of (shell,total_timeout,prepend,append,defaults.output_stream) to the layers doc and cli over the format default; parse level: inline x front-matter defaults for every key pair on Markdown and Cram base; command line: all 27 assignments of {unset,v1,v2} to (flag, inline, document defaults) for output_stream and keep_crlf on a Markdown document and all flag values on a Cram document through `scrut test -r json`. C17: all 256 key subsets with base values; every value of every key alphabet alone and with each other key; all pairs of 17 environment values; timeout x wait product; document configs over shell/timeout/prepend/append/defaults alphabets; routes: one-liner through the Markdown parser, serde_yaml round trip, front-matter through the parser. Same bound in quick and thorough (the space is small enough to be run completely every time).".into()
+        "C16: every assignment of {unset,v1,v2} to the 4 layers for each of 9 keys (7 scalar keys + 2 environment variables) and jointly for every pair of keys (3^8 x 36); DocumentConfig: all 3^10 assignments of (shell,total_timeout,prepend,append,defaults.output_stream) to the layers doc and cli over the format default; parse level: inline x front-matter defaults for every key pair on Markdown and Cram base; command line: all 27 assignments of {unset,v1,v2} to (flag, inline, document defaults) for output_stream and keep_crlf on a Markdown document and all flag values on a Cram document, and all 9 assignments of (flag, front-matter) for `shell` and `total_timeout`, through `scrut test -r json`. C17: all 256 key subsets with base values; every value of every key alphabet alone and with each other key; all pairs of 17 environment values; timeout x wait product; document configs over shell/timeout/prepend/append/defaults alphabets; routes: one-liner through the Markdown parser, serde_yaml round trip, front-matter through the parser. Same bound in quick and thorough (the space is small enough to be run completely every time).".into()
     }
     fn rule(&self, p: &str) -> String {
         if p == "C16" {
@@ -475,6 +481,58 @@ impl Engine for VcConfig {
                     res.nontrivial.push(("C16", key));
                 }
                 res.outcome.push(("C16", hash64(&("parse", inline.iter().map(|v| *v != 0).collect::<Vec<_>>(), doc.iter().map(|v| *v != 0).collect::<Vec<_>>(), cram_base))));
+            }
+            CfgCase::Cli { key: k, cli, inline: _, doc, cram: _ } if *k >= 2 => {
+                use crate::cli::*;
+                let sb = Sandbox::new();
+                res.nontrivial.push(("C16", key));
+                let shells: Vec<String> = (1..=2)
+                    .map(|i| {
+                        let p = sb.scratch.path().join(format!("shell{i}")).join("bash");
+                        let _ = std::fs::create_dir_all(p.parent().unwrap());
+                        std::fs::copy("/bin/bash", &p).unwrap_or_else(|e| machinery_failure(&format!("copy bash: {e}")));
+                        p.to_string_lossy().to_string()
+                    })
+                    .collect();
+                let mut text = String::new();
+                let mut args: Vec<String> = vec!["test".into(), "--no-color".into(), "-r".into(), "json".into()];
+                let (want_kind, describe): (&str, String);
+                if *k == 2 {
+                    if *doc > 0 {
+                        text.push_str(&format!("---\nshell: \"{}\"\n---\n\n", shells[*doc as usize - 1]));
+                    }
+                    let effective = if *cli > 0 { shells[*cli as usize - 1].clone() } else if *doc > 0 { shells[*doc as usize - 1].clone() } else { "/usr/bin/bash".to_string() };
+                    text.push_str(&format!("# Title\n\n```scrut\n$ echo \"$TESTSHELL\"\n{effective}\n```\n"));
+                    if *cli > 0 {
+                        args.push("--shell".into());
+                        args.push(shells[*cli as usize - 1].clone());
+                    }
+                    want_kind = "success";
+                    describe = format!("shell: command line={cli} document={doc} (0 unset) -> TESTSHELL={effective}");
+                } else {
+                    let secs = [0u64, 1, 3];
+                    if *doc > 0 {
+                        text.push_str(&format!("---\ntotal_timeout: {}s\n---\n\n", secs[*doc as usize]));
+                    }
+                    text.push_str("# Title\n\n```scrut\n$ sleep 2\n```\n");
+                    if *cli > 0 {
+                        args.push("--timeout-seconds".into());
+                        args.push(secs[*cli as usize].to_string());
+                    }
+                    let effective = if *cli > 0 { secs[*cli as usize] } else if *doc > 0 { secs[*doc as usize] } else { 900 };
+                    want_kind = if effective < 2 { "timeout" } else { "success" };
+                    describe = format!("total_timeout: command line={cli} document={doc} (0 unset, 1 = 1 s, 2 = 3 s) on `sleep 2` -> effective {effective} s");
+                }
+                sb.write("doc.md", text.as_bytes());
+                args.push("doc.md".into());
+                let refs: Vec<&str> = args.iter().map(|s| s.as_str()).collect();
+                let run = run_scrut(&sb, &refs, &[], std::time::Duration::from_secs(60));
+                let kinds = run.json_kinds();
+                res.outcome.push(("C16", hash64(&("cli-doc", *k, kinds.as_ref().ok().cloned()))));
+                match kinds {
+                    Ok(ks) if ks == vec![want_kind.to_string()] => {}
+                    other => res.findings.push(Finding::new("C16", "command-line-layer-wins", format!("{describe}: [{want_kind}]"), format!("{other:?}; exit status {:?}; stderr {}", run.status, run.stderr_str().lines().last().unwrap_or("")))),
+                }
             }
             CfgCase::Cli { key: k, cli, inline, doc, cram } => {
                 use crate::cli::*;
